@@ -797,6 +797,7 @@ func (a *pubAnalysis) checkResend(c *sim.Conn, region []*wire.Packet, tDialed, t
 		sort.Ints(missing)
 		if len(missing) != 0 {
 			a.violate("C01", "pending-not-resent", "conn %d: connect completed its resend without messages %v, accepted and unacknowledged before the dial", c.Idx, missing)
+			a.violate("C05", "pending-not-resent", "conn %d: connect completed its resend without messages %v, accepted and unacknowledged before the dial", c.Idx, missing)
 		}
 	} else {
 		// prefix: per level, nothing pending may be skipped before a resent one
